@@ -152,14 +152,15 @@ func ruleCode128Encoder(c *Ctx) {
 	addByte := c.P.Func("utils.(*BitList).AddByte")
 	emit := map[int64]*Cond{}
 	var valueCalls []*ssa.Call
-	for _, call := range callsTo(fn, addByte) {
-		if k, ok := n.Norm(call.Common().Args[1]).IsConst(); ok {
-			rc := n.ReachCond(fn, body, call.Block())
+	for _, site := range c.P.deepCallsTo(fn, addByte) {
+		call := site.Ins.(*ssa.Call)
+		if k, ok := n.NormAt(site, call.Common().Args[1]).IsConst(); ok {
+			rc := n.ReachCondDeep(fn, body, site)
 			if old, ok := emit[k]; ok {
 				rc = cOr(old, rc)
 			}
 			emit[k] = rc
-		} else {
+		} else if site.Fn == fn {
 			valueCalls = append(valueCalls, call)
 		}
 	}
